@@ -9,25 +9,23 @@ From PKGen Require Import BatchOrder.
 Import ListNotations.
 Open Scope string_scope.
 
-(* Residual, with the reason each one is not reachable in a dirty state on a loaded object:
-   - ModifyAttribute calls _set_attribute_on_managed_object only for single-valued
-     attributes (l.1778/1883 test is_attribute_multivalued first), the duplicate-name raise
-     sits in the multi-valued branch;
-   - SetAttribute refuses multi-valued attributes before the call (l.1707) and passes a
-     one-entry dictionary, so the loop of _set_attributes_on_managed_object runs once: the
-     raises of a second iteration (after the first one mutated) do not exist.
-   Create / Register / CreateKeyPair / DeriveKey reach the same raises with a TRANSIENT
-   object (not yet added to the session), which the analysis knows. *)
-Definition expected_late_raises : list (string * list string) :=
-  [("_process_modify_attribute",
-    ["_set_attribute_on_managed_object: Cannot set duplicate name values."]);
-   ("_process_set_attribute",
-    ["_set_attribute_on_managed_object: Cannot set duplicate name values.";
-     "_set_attribute_on_managed_object: Cannot overwrite the {0} attribute.";
-     "_set_attribute_on_managed_object: The {0} attribute is unsupported.";
-     "_set_attributes_on_managed_object: Cannot set {0} attribute on {1} object."])].
+(* Residual: the duplicate-name raise of _set_attribute_on_managed_object sits in its multi-valued
+   branch (after `names.extend`).  ModifyAttribute calls the helper only for single-valued
+   attributes (l.1778 / l.1883 test is_attribute_multivalued first) and SetAttribute refuses
+   multi-valued attributes before the call (l.1707); the analysis does not follow that the
+   attribute name tested by the caller is the one the helper tests again.  Create / Register /
+   CreateKeyPair / DeriveKey reach the same raise with a TRANSIENT object (not yet added to the
+   session), which the analysis knows.  SetAttribute passes a one-entry dictionary, so the loop
+   of _set_attributes_on_managed_object runs once (CallOnce). *)
+Definition allowed_late_raises : list (string * string) :=
+  [("_process_modify_attribute", "_set_attribute_on_managed_object: Cannot set duplicate name values.");
+   ("_process_set_attribute", "_set_attribute_on_managed_object: Cannot set duplicate name values.")].
 
-Lemma handlers_order_ok : late_raises engine_methods operation_handlers = expected_late_raises.
+Definition pair_eqb (a b : string * string) : bool := String.eqb (fst a) (fst b) && String.eqb (snd a) (snd b).
+Definition all_allowed (found : list (string * list string)) : bool :=
+  forallb (fun p => forallb (fun l => existsb (pair_eqb (fst p, l)) allowed_late_raises) (snd p)) found.
+
+Lemma handlers_order_ok : all_allowed (late_raises engine_methods operation_handlers) = true.
 Proof. vm_compute. reflexivity. Qed.
 
 (* no handler returns with an uncommitted change, and the placeholder is only set in a clean state
@@ -36,7 +34,7 @@ Lemma handlers_end_clean :
   forallb (fun h => negb (ends_dirty_of engine_methods h)) operation_handlers = true.
 Proof. vm_compute. reflexivity. Qed.
 
-Lemma handlers_counted : length operation_handlers = 21.
+Lemma handlers_counted : List.length operation_handlers = 21.
 Proof. reflexivity. Qed.
 
 (* the analysis does report the shapes the property is about *)
@@ -53,4 +51,10 @@ Proof. vm_compute. reflexivity. Qed.
 Example order_accepts_helper_on_transient_object :
   late_raises [("h", Seq [Call "helper" Ktransient; Mut; Commit; SetPh]); ("helper", Seq [MutParam; If (Seq [Raise "helper: dup"]) (Seq [])])] ["h"]
   = [].
+Proof. vm_compute. reflexivity. Qed.
+
+Example order_loop_once_vs_many :
+  late_raises [("h", Seq [CallOnce "each" Kloaded; Commit]); ("g", Seq [Call "each" Kloaded; Commit]);
+               ("each", Seq [Loop (Seq [If (Seq [Raise "each: refused"]) (Seq []); MutParam])])] ["h"; "g"]
+  = [("g", ["each: refused"])].
 Proof. vm_compute. reflexivity. Qed.
